@@ -108,7 +108,8 @@ def run_case(case, ctx):
         given = given[1:] + given[:1]
     cont = case["cont"]
     if cont == "range":
-        given = list(steps)
+        # a range index can also run downwards: same step set, given in descending order
+        given = list(steps) if case["order"] != 1 else list(steps)[::-1]
     arg = _container(given, cont)
     ok, fh = ctx.call("construct:valid-input-rejected", FH, arg, is_relative=case["rel"])
     if not ok:
